@@ -41,6 +41,7 @@ MH_BOUNDARY = [
     ["StringSizeBetween", 0, 0, "a"], ["StringSizeBetween", 1, 1, "a"], ["StringSizeBetween", 0, 3, "ab"], ["StringSizeBetween", 2, 4, "xyz"],
     ["WeightedString", [[1.0]], ["a"]], ["WeightedString", [[0.0, 1.0], [0.5, 0.5]], ["a", "c"]], ["WeightedString", [[0.25, 0.25, 0.25, 0.25]] * 3, ["A", "C", "G", "T"]],
     ["WeightedString", [[1.0, 0.0]], ["a", "c"]],
+    ["VarRange", ["x0"]], ["VarRange", ["alpha", "beta"]], ["VarRange", ["width"]],  # names of more than one character
     ["IntervalRange", 1, 2, 3], ["IntervalRange", 0, 1, 2], ["IntervalRange", 2, 7, 8], ["IntervalRange", 1, 3, 20],
 ]
 BASE_OF = {"IntRange": "int", "IntList": "int", "FloatRange": "float", "FloatList": "float", "VarRange": "str", "ListSizeBetween": "list", "LSBWLO": "list", "StringSizeBetween": "str", "WeightedString": "str", "IntervalRange": "tuple"}
